@@ -103,8 +103,8 @@ def build(tA, tB, si, order, mi, gi, t1i, pairvariant):
     gA, gB = GAPS[gi]
     if pairvariant:
         ca = 'contype="0" conaffinity="0"'
-        sect = '<contact><pair geom1="%s" geom2="%s" margin="%.17g" gap="%.17g"/></contact>\n' % (
-            ("gA", "gB") if order == 0 else ("gB", "gA"), mA + mB, gA + gB)
+        g1n, g2n = ("gA", "gB") if order == 0 else ("gB", "gA")
+        sect = '<contact><pair geom1="%s" geom2="%s" margin="%.17g" gap="%.17g"/></contact>\n' % (g1n, g2n, mA + mB, gA + gB)
         ma = mb = ""
     else:
         ca, sect = "", ""
